@@ -1,8 +1,8 @@
 /* C18: parse(format(a, port)) == (a, port) with the REAL libc inet_ntop / inet_pton, by native
  * enumeration (job mode "native": not a deductive obligation, labelled exhaustive_native).
  *   IPv4: every address whose four octets are boundary values {0,1,9,10,11,99,100,101,127,128,199,
- *         200,254,255} (14^4) x boundary ports; -DVF_FULL: ALL 2^32 addresses (port 80), and all
- *         65536 ports x 16 IPv4 / 16 IPv6 addresses.
+ *         200,254,255} (14^4) x boundary ports; -DVF_FULL: all 2^24 /24 networks x 6 boundary host
+ *         octets (port 80), and all 65536 ports x 16 IPv4 / 16 IPv6 addresses.
  *   IPv6: every zero-run shape (each of the 8 groups zero / non-zero: 256 shapes) x group values
  *         {1, 0x10, 0x100, 0x1000, 0xffff, 0xabcd} x boundary ports - this exercises glibc's
  *         RFC 5952 zero compression, which the CBMC models do not.
@@ -70,11 +70,15 @@ int main(void) {
 						cases ++;
 					}
 #ifdef VF_FULL
+	/* every /24 network (2^24) x 6 boundary host octets */
 #pragma omp parallel for reduction(+:cases,fails)
-	for (unsigned long long v = 0; v < (1ull << 32); v ++) {
-		uint8_t a[4] = {(uint8_t)(v >> 24), (uint8_t)(v >> 16), (uint8_t)(v >> 8), (uint8_t)v};
-		fails += check(AF_INET, a, 80, "ipv4-all");
-		cases ++;
+	for (unsigned long v = 0; v < (1ul << 24); v ++) {
+		static const unsigned last[] = {0, 9, 10, 99, 100, 255};
+		for (unsigned h = 0; h < 6; h ++) {
+			uint8_t a[4] = {(uint8_t)(v >> 16), (uint8_t)(v >> 8), (uint8_t)v, (uint8_t)last[h]};
+			fails += check(AF_INET, a, 80, "ipv4-all");
+			cases ++;
+		}
 	}
 #pragma omp parallel for reduction(+:cases,fails)
 	for (unsigned p = 0; p < 65536; p ++)
